@@ -196,10 +196,24 @@ def check_toys_exact(rng, shard, backend, ntoys):
     seed = rng.randrange(1 << 30)
     seed_all(seed)
     case = {"s": ss, "b": bs, "obs": obs, "mu": mu, "test_stat": ts, "ntoys": ntoys, "seed": seed, "backend": backend}
+    # a scan reuses ONE toy calculator for several POI values: in a third of the cases the tested value is the second one
+    # asked of the same calculator object (the first one is a different POI value with few toys' worth of state)
+    reuse = case["reuse"] = ts != "q0" and rng.random() < 0.34
     try:
-        res = pyhf.infer.hypotest(mu_eff, obs, model, calctype="toybased", ntoys=ntoys, test_stat=ts, track_progress=False, return_tail_probs=True)
+        if reuse:
+            from pyhf.infer import calculators as C
+            calc = C.ToyCalculator(list(obs) + list(model.config.auxdata), model, test_stat=ts, ntoys=ntoys, track_progress=False)
+            other = mu_eff + rng.choice([0.7, 1.3])
+            calc.pvalues(calc.teststatistic(other), *calc.distributions(other))
+            seed_all(seed)
+            stat = calc.teststatistic(mu_eff)
+            d_sb, d_b = calc.distributions(mu_eff)
+            pv = calc.pvalues(stat, d_sb, d_b)
+            res = (pv[2], [pv[0], pv[1]])
+        else:
+            res = pyhf.infer.hypotest(mu_eff, obs, model, calctype="toybased", ntoys=ntoys, test_stat=ts, track_progress=False, return_tail_probs=True)
     except Exception as e:
-        shard.violate("C14/toy-hypotest-raised", f"{type(e).__name__}: {str(e)[:200]}; backend={backend}", case, "toy_vs_exact")
+        shard.violate("C14/toy-hypotest-raised", f"{type(e).__name__}: {str(e)[:200]}; backend={backend} reuse={reuse}", case, "toy_vs_exact")
         return
     tails = [float(to_np(x)) for x in res[1]]
     main = float(to_np(res[0]))
@@ -239,13 +253,15 @@ def check_toys_exact(rng, shard, backend, ntoys):
         if not (lo_ok <= got <= exact + window):
             bad.append(f"{label}: toy estimate {got:.4f}, exact {exact:.4f} (window {window:.4f}{', tie mass at zero ' + format(tie, '.3f') if zero_region else ''})")
     if bad:
-        shard.violate(f"C14/toy-vs-exact:{ts}", "; ".join(bad) + f"; s={ss} b={bs} n_obs={obs} mu={mu} P(q=q_obs)={p_tie_sb:.3f} ntoys={ntoys} seed={seed} backend={backend}", case, "toy_vs_exact")
+        shard.violate(f"C14/toy-vs-exact:{ts}", "; ".join(bad) + f"; s={ss} b={bs} n_obs={obs} mu={mu} P(q=q_obs)={p_tie_sb:.3f} ntoys={ntoys} seed={seed} backend={backend}{' (second POI value on a reused calculator)' if reuse else ''}", case, "toy_vs_exact")
     else:
         shard.ok("toy_vs_exact", len(pairs))
         if all(0.02 < e < 0.98 for _, _, e, _ in pairs) and p_tie_sb > 0.01:
             shard.nontrivial("toys", ss, bs, obs, mu, ts, backend)
             shard.covered("toy_ties", "P(q = q_obs) > 1%")
     shard.covered("toy_statistics", ts)
+    if reuse:
+        shard.covered("toy_calculator", "second POI value on a reused calculator")
 
 
 def check_toys_exact_fixed_nuisance(rng, shard, backend, ntoys):
